@@ -59,6 +59,24 @@ def originsFrom : List Node → Nat → OState → List (List (String × Origin)
 
 def origins (ns : List Node) : List (List (String × Origin)) := originsFrom ns 0 OState.init
 
+/-- Second pass of the inspection: a signature default only applies while the context does not hold the name, so a
+    defaulted parameter whose name the pipeline requires from the initial context (for any node: `req`) and that no
+    earlier node deleted is reported as coming from the initial context. -/
+def originOf2 (n : Node) (st : OState) (req : List String) (p : PSig) : Origin :=
+  match originOf n st.om p with
+  | .default => if req.contains p.name && !st.gone.contains p.name then .initial else .default
+  | o => o
+
+def originsFrom2 (req : List String) : List Node → Nat → OState → List (List (String × Origin))
+  | [], _, _ => []
+  | n :: ns, i, st => ((reportedParams n).map (fun p => (p.name, originOf2 n st req p))) :: originsFrom2 req ns (i + 1) (stepO n i st)
+
+/-- What the inspection reports: two passes when the flow analysis yields the required keys, one pass otherwise. -/
+def origins2 (ns : List Node) (dtype : String := "NoDataType") : List (List (String × Origin)) :=
+  match analyse ns dtype with
+  | .ok req => originsFrom2 req ns 0 OState.init
+  | .error _ => origins ns
+
 /-- Execution that also returns the context after every node (in order). -/
 def execHist (tbl : ResolveTable) : List Node → Data × Ctx → Except Err ((Data × Ctx) × List Ctx)
   | [], s => .ok (s, [])
